@@ -11,6 +11,11 @@ namespace Bufr
 def canonUInt (n raw : Nat) : Option Nat :=
   if 1 < n ∧ raw = 2 ^ n - 1 then none else some raw
 
+/-- `q` is `a / b` rounded to the nearest integer, the even neighbour on a tie (Python 3 `round`),
+    stated without division: twice the remainder is at most the divisor. -/
+def IsRoundHalfEven (a : Int) (b : Nat) (q : Int) : Prop :=
+  (2 * (a - q * (b : Int))).natAbs < b ∨ ((2 * (a - q * (b : Int))).natAbs = b ∧ q % 2 = 0)
+
 /-- Encoder state after the field `f` (bits in stream order) of the pseudo descriptor `dd` has been
     appended and one supplied value has been used up. (`bits` is most recent first.) -/
 def St.afterWrite (s : St) (dd : DDesc) (f : Bits) : St :=
